@@ -67,6 +67,16 @@ class FnKey:
         return "<Fn %s:%s>" % (self.mod.rel, self.name)
 
 
+def _array_valued(e):
+    """the expression certainly is a numpy array (so an augmented assignment with it works in place on an array)"""
+    for x in ast.walk(e):
+        if isinstance(x, ast.Call):
+            cn = call_name(x) or ""
+            if cn.split(".")[0] in ("np", "numpy") and cn.split(".")[-1] in ("array", "asarray", "zeros", "ones", "empty", "arange", "linspace", "dot", "matmul", "cross", "concatenate", "stack", "vstack", "hstack", "diff", "cumsum"):
+                return True
+    return False
+
+
 class Write:
     __slots__ = ("roots", "node", "desc", "via", "attr", "deep", "target")
 
@@ -513,6 +523,22 @@ class Effects:
                             add_store(t.value, n, "%s %s" % ("del" if isinstance(n, ast.Delete) else "store", norm(t)), full=t)
                     elif isinstance(t, ast.Subscript):
                         add_store(t.value, n, "%s %s" % ("del" if isinstance(n, ast.Delete) else "store", norm(t)))
+                    elif isinstance(t, ast.Name) and isinstance(n, ast.AugAssign) and _array_valued(n.value):
+                        # `x -= <array expression>` updates x in place when x is an array: if x is another name for
+                        # an object reachable from the inputs (pos = state.position), that object changes
+                        roots, seen_, work = set(), set(), [(t.id, n)]
+                        while work:
+                            nm_, at_ = work.pop()
+                            for d in self.prov(fk).rd.defs(nm_, at_):
+                                if id(d) in seen_:
+                                    continue
+                                seen_.add(id(d))
+                                if d.kind == "aug" and d.stmt is not None:
+                                    work.append((nm_, d.stmt))  # an in-place update keeps the object
+                                else:
+                                    roots |= self._def_obj_roots(fk, d, frozenset())
+                        if roots:
+                            writes.append(Write(roots, n, "in-place %s" % norm(n)[:60], attr=None, target=t))
             elif isinstance(n, ast.Call):
                 cn = call_name(n)
                 if cn in ("setattr", "delattr") and n.args:
